@@ -107,6 +107,17 @@ def compare_h5_model(ctx, blob, h5_real, back_real, impl_err, detail, label,
     mh, mb = out['h5'], out['back']
     ctx.count('outInv:%s:%s' % ('valid' if label in ('valid', 'pipeline')
                                 else 'malformed', out['outInv']))
+    if label == 'pipeline' and not out['outInv'] and not pred_failed:
+        has_null = any(r[lv].get(f) is None
+                       for r in blob['results']
+                       for lv in blob['taxonomy_tree']['hierarchy']
+                       for f in ou.NUM_FIELDS)
+        if not has_null:
+            corr_violation(
+                ctx, 'C15/pipeline/outInv-not-established',
+                'the JSON output of a real run does not satisfy OutInv (the '
+                'hypothesis of theorem h5_roundtrip) although no number is '
+                'null', detail, 'OutInv ~ output of run_mapping')
     if label == 'valid' and not out['outInv']:
         from ctmverif import core
         raise core.InfraError('generator produced a blob outside OutInv: %s'
@@ -481,6 +492,54 @@ def gen_fmt4_inputs(rng, n):
 
 
 # ---------------------------------------------------------------------------
+# clean_for_json
+# ---------------------------------------------------------------------------
+
+def check_clean(ctx, value, detail=None):
+    from cell_type_mapper.utils.utils import clean_for_json
+    ctx.count('clean_for_json')
+    st = ou.StrTable()
+    vj = ou.pyval_json(value, st)
+    detail = detail or {'kind': 'clean', 'value_repr': repr(value),
+                        'value_tagged': vj, 'strings': st.strs}
+    ctx.case(('clean', json.dumps(vj, sort_keys=True))
+             if isinstance(value, (dict, list, tuple)) and len(value) > 0
+             else None)
+    try:
+        got = clean_for_json(copy.deepcopy(value))
+        err = None
+    except Exception as e:
+        got, err = None, ou.classify_error(e)
+    # predicate: json.dumps accepts the result and it denotes the same data
+    if err is None:
+        try:
+            text = json.dumps(got)
+            back = json.loads(text)
+            want = json.loads(json.dumps(ou.plainify(value)))
+            ok = ou.plainify(back) == want
+        except Exception as e:
+            ok = False
+            err = 'json:' + ou.classify_error(e)
+    else:
+        ok = False
+    if not ok:
+        ctx.violation('C15/clean_for_json/' + (err or 'value-changed'),
+                      'clean_for_json does not yield JSON-encodable data '
+                      'denoting the same values (%s)' % (err or 'differs'),
+                      detail)
+        return
+    if ctx.driver_ok:
+        out = ctx.model('output.cleanForJson', {'value': vj})
+        gj = ou.pyval_json(got, st)
+        if out['clean'] != gj or not out['plain'] or not out['noOther']:
+            corr_violation(ctx, 'C15/correspondence/clean_for_json',
+                           'clean_for_json differs from the model', detail,
+                           'CTM.Output.clean ~ clean_for_json')
+        else:
+            ctx.traces += 1
+
+
+# ---------------------------------------------------------------------------
 # re_order_blob
 # ---------------------------------------------------------------------------
 
@@ -656,6 +715,15 @@ def check_pipeline(ctx, spec):
         ctx.case(json.dumps(spec, sort_keys=True, default=repr)
                  if nontriv else None,
                  sample={k: v for k, v in spec.items() if k != 'tree'})
+        for r in results:
+            for lv in h:
+                if 'runner_up_assignment' in r[lv]:
+                    ctx.count('pipeline:runner_len:%d'
+                              % len(r[lv]['runner_up_assignment']))
+                else:
+                    ctx.count('pipeline:inferred_level_records')
+                if spec['iters'] == 1 and (r[lv]['avg_correlation'] or 0) < 0:
+                    ctx.count('pipeline:negative_confidence')
         events = []
         for f in sorted(d.glob('trace.*')):
             for line in f.read_text().splitlines():
@@ -794,6 +862,9 @@ def run(ctx):
                 check_direct(ctx, {'kind': 'direct', 'label': label,
                                    'blob': mb, 'iters': iters,
                                    'flatten': flatten})
+    # clean_for_json
+    for i in range(150 if quick else 1500):
+        check_clean(ctx, ou.gen_pyval(rng))
     # re_order_blob
     for i in range(15 if quick else 100):
         n = rng.randint(1, 6)
@@ -831,6 +902,8 @@ def replay(ctx, data, from_corpus=False):
         check_fmt4(ctx, d['xs'])
     elif kind == 'metadata_only':
         check_metadata_only(ctx, d)
+    elif kind == 'clean':
+        check_clean(ctx, ou.pyval_from_json(d['value_tagged'], d['strings']))
     elif kind == 'reorder':
         check_reorder(ctx, d)
     elif not from_corpus:
